@@ -263,6 +263,24 @@ theorem no_candidate_dropped_schulze (v : Pairwise) (n : Nat)
     rw [this, hk]; exact hn
   · rw [hk]; exact hc
 
+/-! ### pairwise win scorers (regenerated from `pairwin_scorer.py` by the translator on every run) -/
+
+/-- winning votes: the count of a pair that wins, `0` otherwise -/
+theorem winning_votes_is_textbook (count rev : Rat) :
+    Gen.PairwinScorer.winning_votes_value count rev = if rev < count then count else 0 := winning_votes_value_eq count rev
+
+/-- margins: the count minus the count of the reverse pair -/
+theorem margins_is_textbook (count rev : Rat) : Gen.PairwinScorer.margins_value count rev = count - rev :=
+  margins_value_eq count rev
+
+/-- pairwise opposition: the count itself -/
+theorem pairwise_opposition_is_textbook (count rev : Rat) :
+    Gen.PairwinScorer.pairwise_opposition_value count rev = count := pairwise_opposition_value_eq count rev
+
+/-- the scored dictionary a scorer returns, entry by entry -/
+theorem scorePairs_is_textbook (sc : Scorer) (v : Pairwise) :
+    scorePairs sc v = v.map (fun e => (e.1, scoreOf sc v e)) := scorePairs_eq sc v
+
 /-! ### defining computations -/
 
 /-- **Copeland ranks by wins minus losses.**  The value handed to `get_n_best` for candidate `c` is the
